@@ -144,8 +144,13 @@ func WriteCompound(dir string, rs ...*ref.Repo) (string, error) {
 	tmp, clean := Scratch("merge")
 	defer clean()
 	var files []index.IndexFile
-	for _, r := range rs {
-		p, err := WriteSimple(tmp, r)
+	for i, r := range rs {
+		// one directory per input: two repositories may share a name (different tenants)
+		sub := filepath.Join(tmp, fmt.Sprint(i))
+		if err := os.MkdirAll(sub, 0o755); err != nil {
+			return "", err
+		}
+		p, err := WriteSimple(sub, r)
 		if err != nil {
 			return "", err
 		}
